@@ -204,34 +204,68 @@ def run(ctx):
         report.nontriv("reply id")
     else:
         viol(report, "C13-R3", b, "reply-id", "the reply is not Packet::new_reply(<id of the query packet>)")
-    # the flag by role: the bool that is returned next to the reply packet
-    ul = None
+    # the flag by role: the bool that is returned next to the reply packet - a local, or a field of a local struct that
+    # carries the reply being built (and is updated through `&mut self` of helpers inlined back)
+    floc = None
     for bi0, si0, s0 in [(bi0, si0, s0) for bi0, bl0 in enumerate(b.blocks) if not bl0["cleanup"] for si0, s0 in enumerate(bl0["stmts"])]:
         if s0["s"] == "assign" and s0["rv"]["k"] == "agg" and s0["rv"].get("ak") == "tuple" and len(s0["rv"]["ops"]) == 2 and \
                 b.ty(s0["pl"]["t"])["s"].endswith("bool)"):
-            ul = mu.origin_local(b, defs, mu.op_local(s0["rv"]["ops"][1]))
+            cur = s0["rv"]["ops"][1]
+            for _ in range(8):
+                if cur.get("o") not in ("copy", "move"):
+                    break
+                loc = mu.resolve_loc(b, defs, cur["pl"])
+                if loc is None:
+                    break
+                if loc[1]:
+                    floc = loc
+                    break
+                d0 = mu.single_def(defs, loc[0])
+                if d0 is None or d0[1] == "term" or d0[2].get("k") != "use":
+                    floc = loc
+                    break
+                cur = d0[2]["op"]
     report.count()
-    if ul is None:
+    if floc is None:
         report.lost_anchor("the unicast flag returned by build_reply")
     else:
-        asg = defs.get(ul, [])
-        consts = [d for d in asg if d[1] != "term" and d[2]["k"] == "use" and d[2]["op"]["o"] == "const" and
-                  d[2]["op"]["k"].get("c") == "int" and int(d[2]["op"]["k"]["v"]) == 0]
-        others = [d for d in asg if d not in consts]
-        dom = mu.dominators(b)
-        good = len(consts) == 1 and len(others) >= 1
+        # every write to that location: (block, source operand)
+        writes = []
+        for bi0, bl0 in enumerate(b.blocks):
+            if bl0["cleanup"]:
+                continue
+            for s0 in bl0["stmts"]:
+                if s0["s"] != "assign":
+                    continue
+                loc = mu.resolve_loc(b, defs, s0["pl"])
+                if loc == floc and s0["rv"]["k"] == "use":
+                    writes.append((bi0, s0["rv"]["op"]))
+                elif loc == floc:
+                    writes.append((bi0, None))
+                elif floc[1] and loc == (floc[0], ()) and s0["rv"]["k"] == "agg" and len(s0["rv"]["ops"]) > floc[1][0]:
+                    writes.append((bi0, s0["rv"]["ops"][floc[1][0]]))
+            t0 = bl0["term"]
+            if t0["t"] == "call" and mu.resolve_loc(b, defs, t0["dest"]) == floc:
+                writes.append((bi0, None))
+
+        def is_const(op, v):
+            return op is not None and op["o"] == "const" and op["k"].get("c") == "int" and int(op["k"]["v"]) == v
+
         def reads_flag(op):
-            if op["o"] not in ("copy", "move"):
+            if op is None or op["o"] not in ("copy", "move"):
                 return False
-            if any(isinstance(p, dict) and p.get("n") == "unicast_response" for p in op["pl"]["p"]):
+            if any(isinstance(p, dict) and p.get("n") == "unicast_response" for p in op["pl"]["p"]) and \
+                    mu.resolve_loc(b, defs, op["pl"]) != floc:
                 return True
             l = mu.op_local(op)
             dd = mu.single_def(defs, l) if l is not None else None
             return dd is not None and dd[1] != "term" and dd[2]["k"] == "use" and reads_flag(dd[2]["op"])
-        for d in others:
-            rv = d[2]
-            src_ok = d[1] != "term" and rv["k"] == "use" and (reads_flag(rv["op"]) or (
-                rv["op"]["o"] == "const" and rv["op"]["k"].get("c") == "int" and int(rv["op"]["k"]["v"]) == 1))
+        inits = [w for w in writes if is_const(w[1], 0)]
+        others = [w for w in writes if w not in inits]
+        dom = mu.dominators(b)
+        good = len(inits) == 1 and len(others) >= 1
+        for (wbi, op) in others:
+            src_ok = reads_flag(op) or is_const(op, 1)
             guarded = False
             for bi2, bl2 in enumerate(b.blocks):
                 t2 = bl2["term"]
@@ -239,7 +273,7 @@ def run(ctx):
                     continue
                 false_t = [tg for v, tg in t2["arms"] if int(v) == 0]
                 true_t = t2["otherwise"]
-                if true_t in dom.get(d[0], ()) and (not false_t or false_t[0] not in dom.get(d[0], ())):
+                if true_t in dom.get(wbi, ()) and (not false_t or false_t[0] not in dom.get(wbi, ())):
                     guarded = True
             good = good and src_ok and guarded
         if good:
